@@ -31,6 +31,8 @@ pub struct Proj {
     sent: Vec<bool>,
     /// full projections of instructions first met while rendering a pid list
     pending: Vec<Sexp>,
+    /// calibration definitions whose `get_qubits()` is not identifier qubits ++ body instructions' qubits
+    pub cal_qubit_mismatches: u64,
 }
 
 fn intern<T: Clone>(table: &mut Vec<T>, x: &T, eq: impl Fn(&T, &T) -> bool) -> usize {
@@ -150,6 +152,22 @@ impl Proj {
     }
 
     fn instr_full(&mut self, i: &Instruction) -> (usize, Sexp) {
+        // structural clause of "the qubits an instruction mentions": a calibration definition mentions
+        // its identifier's qubits and everything its body instructions mention
+        let expected: Option<Vec<&Qubit>> = match i {
+            Instruction::CalibrationDefinition(c) => {
+                Some(c.identifier.qubits.iter().chain(c.instructions.iter().flat_map(|b| b.get_qubits())).collect())
+            }
+            Instruction::MeasureCalibrationDefinition(c) => Some(
+                std::iter::once(&c.identifier.qubit).chain(c.instructions.iter().flat_map(|b| b.get_qubits())).collect(),
+            ),
+            _ => None,
+        };
+        if let Some(e) = expected {
+            if e != i.get_qubits() {
+                self.cal_qubit_mismatches += 1;
+            }
+        }
         let qubits: Vec<Sexp> = i.get_qubits().into_iter().map(|q| self.qubit(q)).collect();
         let (kind, key) = self.kind_key(i);
         let pid = intern(&mut self.instrs, i, |a, b| a == b);
